@@ -20,7 +20,8 @@ CLAIMS = {
              "via B(19),C,D) are evaluated in exact dyadic arithmetic with a 1e-10 residual bound; estimator weights (read from "
              "get_error_estimate) must be consistent; splitting schemes are checked word by word against exp(h(A+B)); the "
              "Richardson tableau code is interpreted over symbolic error expansions for every shipped base order and 2..5 levels, sub-steps are "
-             "N equal parts chained from the accumulated state, and `base.is_adaptive = False` really switches the base's adaptation off. "
+             "N equal parts chained from the accumulated state, `base.is_adaptive = False` really switches the base's adaptation off, and the generic stage loop "
+             "evaluates EVERY stage of the table (none skipped or carried over from another call). "
              "For the 30 tables without an open finding this is a proof of the algebraic conditions that are necessary and sufficient for "
              "the declared local order of the map the tables define (that step() evaluates that map is C02's clause; nothing is integrated). "
              "The level is 'other', not 'proof', because two obligations are undischarged known findings (the declared orders of the two "
@@ -30,7 +31,8 @@ CLAIMS = {
         technique="constant folding + exact symplecticity matrix / symmetry / palindrome identities; AST shape of the drift-kick update",
         text="For every shipped class flagged symplectic: RK tables satisfy b_i a_ij + b_j a_ji = b_i b_j (<=1e-13) and the symmetry "
              "relations; splitting tables have exclusive drift/kick rows summing to one in a palindromic sequence; the step code "
-             "applies each row as a shear evaluated at the running partial state with complementary masks. By the cited theorems "
+             "applies each row as a shear evaluated at the running partial state with complementary masks; for the implicit symplectic tables 'accepted' implies "
+             "'stage equations solved' (acceptance typestate of C02.4 re-judged). By the cited theorems "
              "this proves symplecticity/reversibility of the exact-arithmetic map for separable Hamiltonians; rounding-level and "
              "long-run energy behaviour are not decided."),
     "C11": dict(
@@ -50,7 +52,7 @@ CLAIMS["C02"] = dict(
     text="Decides the structural clause of C02, not the numbers: every reader of a coefficient table uses the [c | A] / [. | b] layout "
          "the tables are written in; the stage time/state arguments of compute_step, algebraic_system and the high-precision Jacobian "
          "branch equal t0 + h c_i and y0 + h sum_j a_ij k_j as polynomial normal forms; the propagated increment is h sum b_i k_i of the "
-         "solved stages (FSAL shortcut only for explicit FSAL tables); the stored Newton flag implies solver success AND residual < tol; "
+         "solved stages (FSAL shortcut only for explicit FSAL tables); the stage loop runs over all stages; the stored Newton flag implies solver success AND residual < tol; "
          "and on every path of RungeKuttaIntegrator.__call__ (all abstract states, fixpoint over the retry loop, exceptional edges) no "
          "return is reachable for an implicit method whose last stage solve failed. Each is a necessary condition: breaking it changes the "
          "computed map. Equality 'to rounding / to solver tolerance' of returned values is not decided.")
@@ -75,7 +77,8 @@ CLAIMS["C03"] = dict(
          "iteration calls the integrator at the last committed row with a step in {dt, tf - t}, writes rows counter+1 = row + that call's own "
          "increments before advancing the counter with no user-code call in between, clamps exactly when |dt| > |tf - t|, loops while |tf - t| >= eps; "
          "(3) a capacity test dominates every row write; (4) only row counter+1 is ever stored and buffers keep y0's dtype; (5) on every path the "
-         "signed step handed to the integrator was oriented toward THIS call's target. Not decided: finiteness of values, rounding-level closeness to tf.")
+         "signed step handed to the integrator was oriented toward THIS call's target; (6) with events the rolled-back row is re-committed from the saved committed row; "
+         "(7) the step loop can be left only through its distance test or the event handler's terminal flag (no other rebinding of the names its test reads, no other break). Not decided: finiteness of values, rounding-level closeness to tf.")
 CLAIMS["C04"] = dict(
     category="other", design="DESIGN.md 4/C04",
     technique="quantity-kind (direction/unit) type checking of the integrators' step arithmetic; provenance abstract interpretation of the returned step; def-use rules",
@@ -114,7 +117,8 @@ CLAIMS["C07"] = dict(
          "in-step test; the duplicate-suppression table is indexed by EVENT index (positions among active events are mapped through active_events); up/down over "
          "all 27 sign patterns of the three samples and the direction mask over (up, down, direction in {-1,0,1}) equal their specifications and imply the root "
          "finder's success; events are ordered by sign(dt)*t; the in-step test is the mirrored pair selected by the sign of the step; each event's own is_terminal/direction attributes "
-         "are bound to its index and the samples around a root are offset by signed durations along the step. Not decided: g(t_e,y_e)~0 and "
+         "are bound to its index and the samples around a root are offset by signed durations along the step; the recorded-events list is never indexed with a "
+         "last_occurrence entry that can still be the sentinel -1 (path conditions with short-circuit and guard clauses). Not decided: g(t_e,y_e)~0 and "
          "closeness to a true root.")
 CLAIMS["C08"] = dict(
     category="other", design="DESIGN.md 4/C08",
@@ -122,7 +126,7 @@ CLAIMS["C08"] = dict(
     text="Decides: whether the root search reports success is invariant under rescaling of the event function (no function value is ordered against an abscissa "
          "tolerance); the bracket handed to the root finder is (start, end) of the step just committed, read after the commit and before the rollback; a search "
          "function is built for every event and evaluated at (t, sol(t)); the interpolant of the step is in the solution before the search and pruning happens only "
-         "after it; the roots are ordered by sign(dt)*t before the only operation that discards crossings (truncation after the first terminal event). The design's 'keep the most recent pieces in either direction' clause was withdrawn as a false alarm (see DESIGN.md). Not decided: convergence "
+         "after it; the samples that classify a crossing as rising/falling lie before/after the root ALONG the step (signed offsets); the roots are ordered by sign(dt)*t before the only operation that discards crossings (truncation after the first terminal event). The design's 'keep the most recent pieces in either direction' clause was withdrawn as a false alarm (see DESIGN.md). Not decided: convergence "
          "of Brent's iteration on a given steep function.")
 CLAIMS["C09"] = dict(
     category="other", design="DESIGN.md 4/C09",
@@ -130,7 +134,7 @@ CLAIMS["C09"] = dict(
     text="Decides: ordering along the direction of integration precedes the terminal truncation, which keeps [: first terminal + 1] of the three parallel arrays; on "
          "a terminal event integrate() has rolled the step back, re-integrates to the LAST kept root with neither events nor callbacks, sets status 2 after the "
          "recursive call, leaves the loop and writes no row afterwards; the pieces of the rolled-back step are removed from the end they were added to; at the end of every iteration, on the terminal path in particular, interpolant pieces "
-         "added = counter advance. Not decided: that the last state lies on the event surface (numeric).")
+         "added = counter advance; the duplicate filter cannot suppress a first occurrence (the terminal event) through the sentinel entry. Not decided: that the last state lies on the event surface (numeric).")
 CLAIMS["C12"] = dict(
     category="other", design="DESIGN.md 4/C12",
     technique="handler-discipline rules on the try statement; lexical containment of user-reaching calls; balance abstract interpretation with exceptional edges from every such call",
@@ -138,7 +142,7 @@ CLAIMS["C12"] = dict(
          "try; a KeyboardInterrupt handler, not shadowed by a broader one, records and re-raises the interrupt; an Exception handler raises FailedIntegration whose "
          "__cause__ is the original; rows are written only after the integrator returned with nothing raising between the writes and the counter increment; at each "
          "exceptional exit pieces added = counter advance; a cached end slope is reused only for the point it was computed at (so a failure cannot leave a stale one); "
-         "finally trims both buffers to counter+1. Asynchronous interrupts between bytecodes and the numerical "
+         "finally trims both buffers to counter+1; an implicit step whose stage solve failed is never returned to integrate() (it ends in FailedToMeetTolerances). Asynchronous interrupts between bytecodes and the numerical "
          "correctness of a resumed run are not decided.")
 CLAIMS["C13"] = dict(
     category="other", design="DESIGN.md 4/C13",
@@ -153,7 +157,8 @@ CLAIMS["C14"] = dict(
     text="Decides: in both Brent solvers no function value is ordered against an abscissa tolerance or a pure number other than zero (success is scale-free); the "
          "safeguard 'interpolated point outside ((3a+b)/4, b) => bisect' is a tautology of the extracted predicate in both; the scalar and the vectorised solver "
          "compute the same boolean function of the same arithmetic atoms and stop on the same tests; both loops are capped by a counter; over sign(f(a)f(b)) in {-,0,+} "
-         "the scalar solver rejects exactly '+', returns `product <= 0` as success, and the vector success is implied by an exact zero at the end point."
+         "the scalar solver rejects exactly '+', returns `product <= 0` as success, and the vector success is implied by an exact zero at the end point; "
+         "the bracket update is interpreted over all sign patterns (f(a), f(b), f(s)): the sign change is kept, the new point becomes an end, abscissae stay paired with their values."
          " Not decided: that the "
          "returned point is within the tolerance of a sign change.")
 CLAIMS["C15"] = dict(
@@ -161,7 +166,7 @@ CLAIMS["C15"] = dict(
     technique="truth tables over the atoms of the success expressions (sequential symbolic evaluation), atoms classified by quantity kind (residual vs step); slot-kind agreement of return sites; shape dataflow",
     text="Decides: for hybrj, newtontrustregion and nonlinear_roots whether the value returned in the success slot can be true while every residual test (and the "
          "external MINPACK flag) is false; that all return sites of nonlinear_roots put the residual norm in the slot the implicit integrator compares with its "
-         "tolerance; that the root is reshaped to the initial guess's shape on every return path; that a trial point is accepted only under a positively established progress "
+         "tolerance; that the root is reshaped to the initial guess's shape on every return path (a solver result passed through must come from a call given x0 itself); that a trial point is accepted only under a positively established progress "
          "test (NaN-safe). The step-size success tests of hybrj/newtontrustregion are "
          "recorded known findings. Not decided: the 'modest multiple' constant.")
 CLAIMS["C16"] = dict(
@@ -177,13 +182,13 @@ CLAIMS["C18"] = dict(
     technique="keyword-to-source tables; def-use of args binding; axis rules; quantity-kind (direction) checking of the clipping callback and of t_eval handling",
     text="Decides: OdeSystem(...) and OdeResult(...) are built field by field from solve_ivp's own arguments / the underlying system; args are bound to the "
          "right-hand side's parameters after (t, y) in order; the time axis is last in both branches and the t_eval loop records the last sample after integrating to "
-         "each time; the max_step/min_step callback is registered exactly when a bound is given and clips the magnitude of the signed step; sorting and range test of "
+         "each time; t_eval is only ever rearranged (conversion, sort, reversal, sign), never selected from (unique/mask/slice); the max_step/min_step callback is registered exactly when a bound is given and clips the magnitude of the signed step; sorting and range test of "
          "t_eval are direction-normalised. Not decided: agreement with SciPy.")
 CLAIMS["C19"] = dict(
     category="other", design="DESIGN.md 4/C19",
     technique="boundary evaluation of the linear index guard; owner rule for the raw buffers; quantity-kind (direction) checking of order-dependent searches; branch rules",
     text="Decides: the integer guard raises IndexError exactly for index >= number of recorded steps (evaluated at counter-1, counter, counter+1) and reads go through "
-         "the trimmed views; __getitem__ never reads the raw buffers; every bisection over the history-ordered grid is direction-normalised and the nearest-sample "
+         "the trimmed views; __getitem__ never reads the raw buffers; every bisection over the history-ordered grid is direction-normalised with the orientation of the RECORDED samples (not the configured span or step) and the nearest-sample "
          "lookup is the direction-free argmin|t - q|; the dense branch is taken exactly when dense output is kept; len() is counter+1.")
 CLAIMS["C20"] = dict(
     category="other", design="DESIGN.md 4/C20",
